@@ -449,6 +449,9 @@ func Parallel(n int, f func(i int)) {
 		wg.Add(1)
 		go func() {
 			defer wg.Done()
+			// SetPanicOnFault is per goroutine: make guard-page faults
+			// recoverable in the workers too.
+			debug.SetPanicOnFault(true)
 			for {
 				i := int(next.Add(1) - 1)
 				if i >= n {
